@@ -323,6 +323,9 @@ fn loop_case(q: &mut Q, h: &Handle, calls_tok: &str) {
     let before_state = q.state_ref().to_vec();
     let before_slots = show_slots(q.get_manager_ref());
     let sk = skeleton(q);
+    // hypotheses of the preservation theorem (Qmc.C04.loopUpdate_pres), evaluated on the real code
+    // before the move: periodic world lines, positive matrix elements, op shape
+    let hyp = legal_and_consistent(q).is_ok();
     h.borrow_mut().take_log();
     let r = catch(|| q.loop_update());
     let log = h.borrow_mut().take_log();
@@ -347,7 +350,7 @@ fn loop_case(q: &mut Q, h: &Handle, calls_tok: &str) {
                 stat("loop_crossed_boundary_state_changed", 1);
             }
             let cons = propagate_check(q.get_manager_ref(), &after_state).map(|f| f == after_state).unwrap_or(false);
-            emit(changed || log.len() > 4, &input, &format!("{} {} ok c={}", bits(&after_state), after_slots, cons as u8), Some(oracle));
+            emit(changed || log.len() > 4, &input, &format!("{} {} ok c={} hyp={}", bits(&after_state), after_slots, cons as u8, hyp as u8), Some(oracle));
         }
     }
 }
